@@ -66,6 +66,23 @@ def _mods():
 
 
 SERIALIZER_NOTES = []
+_HSIG = {}
+
+
+def header_signature():
+    """The signature of the fixed header + field array, located through public behaviour by harness/c03_probe.py
+    (the private name `message._headerFormat` is only its fast path)."""
+    marshal, message, _, _ = _mods()
+    key = id(message)
+    if key not in _HSIG:
+        from harness import c03_probe
+        _HSIG[key] = c03_probe.header_signature(message, marshal)
+    return _HSIG[key]
+
+
+class HarnessFault(Exception):
+    """The harness could not set a scenario up, or its own reach into an internal of the library failed: never a
+    property violation - the stream is skipped with a note."""
 
 
 def serialize(m, big):
@@ -75,7 +92,7 @@ def serialize(m, big):
     lend = not big
     flags = (0 if m.expectReply else 1) | (0 if m.autoStart else 2)
     body = b''.join(marshal.marshal(m.signature, m.body, lendian=lend)[1]) if m.signature else b''
-    hdr = b''.join(marshal.marshal(message._headerFormat,
+    hdr = b''.join(marshal.marshal(header_signature(),
                                    [ord('B') if big else ord('l'), m._messageType, flags, 1, len(body),
                                     m.serial, m.headers], lendian=lend)[1])
     return hdr + b'\0' * (-len(hdr) % 8) + body
@@ -195,17 +212,14 @@ def gen_message(rng, short=False, kinds=('ret', 'err', 'sig', 'call'), big=None)
                                       destination=rng.choice([None, 'a.b', ':1.2']),
                                       signature=sig, body=body,
                                       expectReply=rng.random() < 0.7, autoStart=rng.random() < 0.7)
+    # cross-check of the reference serializer against what the constructor itself produced (public rawMessage)
+    if serialize(m, False) != m.rawMessage and len(SERIALIZER_NOTES) < 3:
+        SERIALIZER_NOTES.append('reference serializer differs from the constructor: %s vs %s'
+                                % (serialize(m, False).hex()[:200], m.rawMessage.hex()[:200]))
     m.serial = gen_int(rng, 1, 2 ** 32 - 1)
     if big is None:
         big = rng.random() < 0.5
     raw = serialize(m, big)
-    if not big:
-        m._marshal(False)
-        if m.rawMessage != raw:
-            # what _marshal writes is the message that was sent (its content is C03's business)
-            SERIALIZER_NOTES.append('reference serializer differs from _marshal: %s vs %s'
-                                    % (raw.hex()[:200], m.rawMessage.hex()[:200]))
-            raw = m.rawMessage
     return raw, big, m
 
 
@@ -384,6 +398,12 @@ def _make_classes():
     class Server(Recorder, bus.BusProtocol):
         pass
 
+    class StubServer(Recorder, bus.BusProtocol):
+        """A server-side protocol (the role comes from the real server class, not from a private flag) whose
+        authenticator is the scripted stub."""
+
+    Basic.StubServer = StubServer
+
     from txdbus import client
 
     class ClientConn(Recorder, client.DBusClientConnection):
@@ -409,47 +429,58 @@ def observe(ctx, sc):
     from txdbus import protocol
     Basic, Server, StubAuth, Wrap, authentication = classes(ctx)
     mode = sc['mode']
-    protocol._is_linux = False
     tr = StringTransport()
     lose0 = tr.loseConnection
+    # the Linux-only SO_PEERCRED lookup of a server's first read: the transport always offers a socket, so the
+    # scenario runs whatever the platform switch says; when the switch is where we know it, both branches are driven
+    tr.socket = _FakeSocket()
+    if hasattr(protocol, '_is_linux'):
+        protocol._is_linux = bool(sc.get('linux')) and mode.endswith('server')
+    wrapbox = []
 
-    if mode == 'binary':
-        p = Basic()
-        p._rec_init()
-        p.swallow = bool(sc.get('swallow'))
-        p.transport = tr
-        p._receivedFDs = []
-        p._authenticated = True
-        wrap = None
-    else:
-        if mode in ('stub-client', 'stub-server'):
+    def wrapped(cls_):
+        # the public hook `authenticator` (a class or any callable): record each handled line and its outcome
+        def make(*a):
+            w = Wrap(cls_(*a), p)
+            wrapbox.append(w)
+            return w
+        return make
+    try:
+        if mode == 'binary':
             p = Basic()
-            p._client = (mode == 'stub-client')
-            cls = type('StubAuthS', (StubAuth,), {'script': sc.get('script', '')})
-            from zope.interface import classImplements
-            classImplements(cls, protocol.IDBusAuthenticator)
-            p.authenticator = cls
-        elif mode == 'real-client':
-            p = Basic()
-            p._client = True
-            p.authenticator = authentication.ClientAuthenticator
-        elif mode == 'real-server':
-            p = Server()
-        elif mode == 'real-clientconn':
-            p = Basic.ClientConn()
+            p._rec_init()
+            p.swallow = bool(sc.get('swallow'))
+            p.transport = tr
+            p._receivedFDs = []
+            p._authenticated = True
         else:
-            raise ValueError(mode)
-        p._rec_init()
-        p.factory = _FakeFactory()
-        if sc.get('linux') and mode.endswith('server'):
-            # the Linux-only SO_PEERCRED lookup of a server's first read
-            protocol._is_linux = True
-            tr.socket = _FakeSocket()
-        p.makeConnection(tr)
-        wrap = None
-        if mode.startswith('real'):
-            wrap = Wrap(p._dbusAuth, p)
-            p._dbusAuth = wrap
+            if mode in ('stub-client', 'stub-server'):
+                p = Basic() if mode == 'stub-client' else Basic.StubServer()
+                cls = type('StubAuthS', (StubAuth,), {'script': sc.get('script', '')})
+                from zope.interface import classImplements
+                classImplements(cls, protocol.IDBusAuthenticator)
+                p.authenticator = cls
+            elif mode == 'real-client':
+                p = Basic()
+                p.authenticator = wrapped(authentication.ClientAuthenticator)
+            elif mode == 'real-server':
+                p = Server()
+                p.authenticator = wrapped(type(p).authenticator)
+            elif mode == 'real-clientconn':
+                p = Basic.ClientConn()
+                p.authenticator = wrapped(type(p).authenticator)
+            else:
+                raise ValueError(mode)
+            p._rec_init()
+            p.factory = _FakeFactory()
+            p.makeConnection(tr)
+            if mode.startswith('real') and not wrapbox:
+                raise HarnessFault('the authenticator hook was not used by connectionMade')
+    except HarnessFault:
+        raise
+    except (AttributeError, TypeError) as e:
+        raise HarnessFault('setting up mode %s failed: %s: %s' % (mode, type(e).__name__, e))
+    wrap = wrapbox[0] if wrapbox else None
 
     def lose():
         p.effects.append('X')
@@ -484,13 +515,26 @@ def observe(ctx, sc):
             if not pending:
                 pending.append(b'')         # what was buffered behind the failing message is framed by the next read
         except Exception as e:
+            import traceback
+            tb = traceback.extract_tb(e.__traceback__)
+            if isinstance(e, (AttributeError, TypeError)) and tb and tb[-1].filename.endswith(
+                    ('harness/c04.py', 'harness/c20.py')):
+                raise HarnessFault('%s inside the harness at line %d: %s' % (type(e).__name__, tb[-1].lineno, e))
             crashed = type(e).__name__
             p.effects.append('!')
             break
     ctx.impl_trace()
-    final = '%s %d %d %d %d' % (bytes(p._buffer).hex() or '-', p._nextMsgLen,
-                                1 if p._authenticated else 0, 1 if p._firstByte else 0,
+    # `_buffer` and `_authenticated` are pinned by the test suite; the cached length and the first-byte flag are
+    # not: compared when they are where we know them, '?' otherwise (the buffer determines both behaviourally)
+    nxt = getattr(p, '_nextMsgLen', None)
+    fb = getattr(p, '_firstByte', None)
+    final = '%s %s %d %s %d' % (bytes(p._buffer).hex() or '-', '?' if not isinstance(nxt, int) else nxt,
+                                1 if p._authenticated else 0, '?' if fb is None else (1 if fb else 0),
                                 1 if tr.disconnecting else 0)
+    for name, v in (('_nextMsgLen', nxt), ('_firstByte', fb)):
+        if v is None and name not in _MISSING:
+            _MISSING.add(name)
+            ctx.note('private attribute %s not found on the protocol: left out of the compared final state' % name)
     if wrap is not None:
         script = ''.join(wrap.script)
     else:
@@ -499,11 +543,21 @@ def observe(ctx, sc):
             'crashed': crashed, 'authenticated': bool(p._authenticated), 'parse_failed': p.parse_failed}
 
 
+_MISSING = set()
+
+
 def strip_endian(model_out):
     """The driver prints `| buffer next big auth fb closed`; `_endian` is not compared."""
     head, sep, tail = model_out.rpartition('| ')
     t = tail.split(' ')
-    return head + sep + ' '.join(t[:2] + t[3:]) if len(t) == 6 else model_out
+    if len(t) != 6:
+        return model_out
+    t = t[:2] + t[3:]
+    if '_nextMsgLen' in _MISSING:
+        t[1] = '?'
+    if '_firstByte' in _MISSING:
+        t[3] = '?'
+    return head + sep + ' '.join(t)
 
 
 def impl_line(obs):
@@ -585,6 +639,9 @@ def classify(sc, obs):
     return 'handoff-messages-differ', 'handshake followed by messages: ' + what
 
 
+SKIPPED = {}
+
+
 class Batch:
     """Collects scenarios, runs model (one driver call) and implementation, reports."""
 
@@ -602,7 +659,17 @@ class Batch:
         items, self.items = self.items, []
         if not items:
             return
-        obs = [observe(ctx, sc) for _, sc, _, _ in items]
+        obs, kept = [], []
+        for it in items:
+            try:
+                obs.append(observe(ctx, it[1]))
+                kept.append(it)
+            except HarnessFault as e:
+                ctx.streams_run.add(it[0])
+                SKIPPED[it[0]] = SKIPPED.get(it[0], 0) + 1
+                if SKIPPED[it[0]] == 1:
+                    ctx.note('stream %s: scenario skipped, the harness could not run it (%s)' % (it[0], e))
+        items = kept
         with_model = [k for k, (_, sc, _, _) in enumerate(items) if not sc.get('no_model')]
         mo = ctx.model([model_line(items[k][1], obs[k]['script']) for k in with_model])
         out = None
@@ -1120,6 +1187,9 @@ def run_one(ctx, stream, sc, oracle=True):
 
 
 def run(ctx):
+    SKIPPED.clear()
+    _MISSING.clear()
+    del SERIALIZER_NOTES[:]
     import logging  # noqa
     from twisted.python import log as tlog  # noqa  (log.msg without observers is silent)
     for name, data in ctx.corpus():
@@ -1143,6 +1213,10 @@ def run(ctx):
     B.flush()
     for t in SERIALIZER_NOTES[:3]:
         ctx.note(t)
+    for st, k in sorted(SKIPPED.items()):
+        ctx.note('stream %s: %d scenarios skipped by the harness (an internal it reaches for has moved)' % (st, k))
+    if SKIPPED and ctx.cases == 0:
+        raise RuntimeError('no stream of C04 could run: %r' % (SKIPPED,))
 
 
 def replay(ctx, data):
